@@ -75,6 +75,8 @@ class Exec {
   std::string cfg2_xml;
   bm::Limits lim2_model;
   std::set<std::string> activatable2;
+  bool lim_cfg_reloaded = false;
+  bw::BusLimits lim2_cfg;
   bool oom_op_locked = false;
   int config_loads_before = 0;       // at the operation under the injected failure
   bool skip_until_retry = false;     // listed finding C14-reload-not-atomic: which configuration governs is unspecified until the retry
